@@ -581,8 +581,94 @@ fn wrap_fuzz(b: Vec<u8>) -> DiffCase {
     DiffCase { text: String::from_utf8_lossy(&b[2..]).into_owned(), ns: b[0] % 4, nn: b[1] % 4 }
 }
 
+// --- a segment repeated byte for byte until its running index leaves the array ------------------
+
+/// `reps` byte-identical segments with source (or name) delta `+-step`, starting from an index such
+/// that `reps - 1` of them stay inside the array and the last one steps out of it. Every single
+/// segment is harmless; only the running sum is out of range.
+#[derive(Clone, Debug, Hash, Serialize, Deserialize)]
+pub struct RepeatCase {
+    pub name_field: bool,
+    pub negative: bool,
+    pub reps: u8,
+    pub step: u8,
+    pub slack: u8,
+    pub semicolons: bool,
+    pub prefix: bool,
+}
+
+fn repeat_docs(c: &RepeatCase) -> (String, String, usize) {
+    let (k, d, e) = (i64::from(c.reps.max(2)) - 1, i64::from(c.step.max(1)), i64::from(c.slack % c.step.max(1)));
+    // in range after k repetitions, out of range after k + 1
+    let (len, start) = if c.negative { (k * d + e + 2, k * d + e) } else { (k * d + e + 1, 0) };
+    let delta = if c.negative { -d } else { d };
+    let first: Vec<i64> = if c.name_field { vec![0, 0, 0, 0, start] } else { vec![0, start, 0, 0] };
+    let seg: Vec<i64> = if c.name_field { vec![1, 0, 0, 0, delta] } else { vec![1, delta, 0, 0] };
+    let sep = if c.semicolons { ";" } else { "," };
+    let build = |n: i64| {
+        let mut parts = vec![];
+        if c.prefix {
+            parts.push(rv::write_all(&[0]));
+        }
+        parts.push(rv::write_all(&first));
+        for _ in 0..n {
+            parts.push(rv::write_all(&seg));
+        }
+        parts.join(sep)
+    };
+    let (good, bad) = (build(k), build(k + 1));
+    let arr = |n: i64, p: &str| (0..n).map(|i| format!("\"{p}{i}\"")).collect::<Vec<_>>().join(",");
+    let (ns, nn) = if c.name_field { (1, len) } else { (len, 0) };
+    let doc = |m: &str| format!("{{\"version\":3,\"sources\":[{}],\"names\":[{}],\"mappings\":\"{m}\"}}", arr(ns, "s"), arr(nn, "n"));
+    (doc(&good), doc(&bad), len as usize)
+}
+
+fn check_repeat(c: &RepeatCase, obs: &mut Obs) -> Verdict {
+    let (good, bad, len) = repeat_docs(c);
+    match guard(|| decode_slice(good.as_bytes())) {
+        Ok(Ok(_)) => {}
+        Ok(Err(e)) => return Verdict::Fail(format!("the twin with one repetition less (all indices in range, array of {len}) is rejected: {e}; doc={good}")),
+        Err(p) => return Verdict::Fail(format!("decode_slice: {p}; doc={good}")),
+    }
+    match guard(|| decode_slice(bad.as_bytes())) {
+        Ok(Err(_)) => {}
+        Ok(Ok(_)) => {
+            return Verdict::Fail(format!(
+                "a {} index driven {} the array of {len} by byte-identical repeated segments is accepted; doc={bad}",
+                if c.name_field { "name" } else { "source" },
+                if c.negative { "below" } else { "beyond" }
+            ))
+        }
+        Err(p) => return Verdict::Fail(format!("decode_slice: {p}; doc={bad}")),
+    }
+    obs.class(if c.negative { "repeated-segment-walks-below-0" } else { "repeated-segment-walks-past-the-array" });
+    obs.nontrivial();
+    Verdict::Pass
+}
+
+fn repeats(_t: Tier) -> Box<dyn Iterator<Item = RepeatCase>> {
+    let mut out = vec![];
+    for name_field in [false, true] {
+        for negative in [false, true] {
+            for reps in 2..=5u8 {
+                for step in 1..=3u8 {
+                    for slack in 0..step {
+                        for semicolons in [false, true] {
+                            for prefix in [false, true] {
+                                out.push(RepeatCase { name_field, negative, reps, step, slack, semicolons, prefix });
+                            }
+                        }
+                    }
+                }
+            }
+        }
+    }
+    Box::new(out.into_iter())
+}
+
 fn subs() -> Vec<Sub> {
     vec![
+        enum_sub("repeated_segments", repeats, check_repeat),
         gen_sub("differential_strings", diff_strings, |t| t.pick(200_000, 2_000_000), check_diff),
         super::fuzzrun::fuzz_sub::<DiffCase>("fuzz", "c06", check_diff, wrap_fuzz),
         gen_sub("single_fault", single, |t| t.pick(100_000, 1_500_000), check),
